@@ -214,6 +214,8 @@ type Frame struct {
 	// In: the frame is evaluating the body of this call's callee; access
 	// paths are written in the caller's terms (PathOfIn).
 	In *ssa.CallCommon
+	// outer: the call sites above In (predicate helpers nest: validID → validHexOfLen)
+	outer []*ssa.Call
 	// AssumePath fixes the truth of conditions named by access path — e.g.
 	// "(recv.f.Since != const:nil)": true — wherever they are tested (in the
 	// function itself or in a predicate helper it delegates to). Paths that
@@ -238,6 +240,9 @@ func (f Frame) AssumePresent(ap string) Frame {
 
 func (f Frame) pathOf(v ssa.Value) string {
 	if f.In != nil {
+		if len(f.outer) > 0 {
+			return PathOfChain(v, f.outer)
+		}
 		return PathOfIn(v, f.In)
 	}
 	return PathOf(v)
@@ -265,7 +270,24 @@ func (f Frame) term(v ssa.Value) (int64, bool) {
 		if g := StaticCallee(f.In); g != nil {
 			for i, gp := range g.Params {
 				if gp == par && i < len(f.In.Args) {
-					return ConstInt(f.In.Args[i])
+					a := f.In.Args[i]
+					// … which may itself be a parameter of the helper above
+					for k := len(f.outer) - 2; k >= 0; k-- {
+						ap, isPar := a.(*ssa.Parameter)
+						if !isPar {
+							break
+						}
+						og := StaticCallee(&f.outer[k].Call)
+						if og == nil {
+							break
+						}
+						for j, op := range og.Params {
+							if op == ap && j < len(f.outer[k].Call.Args) {
+								a = f.outer[k].Call.Args[j]
+							}
+						}
+					}
+					return ConstInt(a)
 				}
 			}
 		}
@@ -517,9 +539,10 @@ func (f Frame) evalBool(v ssa.Value, p Path, depth int) (t, fs Set, known bool) 
 	case *ssa.Call:
 		// a pure predicate of the module (`isTagKey(k)`): its verdict means what its
 		// body means, read in the caller's terms
-		if g := StaticCallee(&x.Call); g != nil && f.In == nil && f.IsSubject == nil && f.Term == nil && IsPurePredicate(g) {
+		if g := StaticCallee(&x.Call); g != nil && len(f.outer) < 3 && f.IsSubject == nil && f.Term == nil && IsPurePredicate(g) {
 			f2 := f
 			f2.In = &x.Call
+			f2.outer = append(append([]*ssa.Call(nil), f.outer...), x)
 			f2.Assume = nil
 			if t, fs, _, ok := f2.FuncBoolMeaning(g, 0, nil, nil); ok {
 				return full.Intersect(t), full.Intersect(fs), true
